@@ -2,6 +2,8 @@
 From Coq Require Import List String ZArith NArith Bool.
 Import ListNotations.
 Require Import GenTypes AdaptorModel AdaptorProofs gen.Tables.
+Local Open Scope string_scope.
+Local Open Scope list_scope.
 
 (* obligation over the regenerated slicing arithmetic of bind_functor / hide_functor *)
 Theorem C10_gen_slices_ok : slices_ok gen_slices = true.
@@ -13,15 +15,15 @@ Print Assumptions C10_gen_slices_ok.
 Theorem C10_call_eq_doc :
   forall M S, slices_ok S = true ->
   forall e d args, wt e (List.length args) = true -> wf_values e = true ->
-    exists l, call M S e d args = COk l (snd (call_doc e args)) /\
-              log_values l = log_values (fst (call_doc e args)).
+    exists l r, call M S e d args = COk l r /\ result_val r = result_val (snd (call_doc e args)) /\
+                log_values l = log_values (fst (call_doc e args)).
 Proof. exact call_eq_doc. Qed.
 Print Assumptions C10_call_eq_doc.
 
 Corollary C10_library_call_eq_doc :
   forall e d args, wt e (List.length args) = true -> wf_values e = true ->
-    exists l, call gen_hop_modes gen_slices e d args = COk l (snd (call_doc e args)) /\
-              log_values l = log_values (fst (call_doc e args)).
+    exists l r, call gen_hop_modes gen_slices e d args = COk l r /\ result_val r = result_val (snd (call_doc e args)) /\
+                log_values l = log_values (fst (call_doc e args)).
 Proof. exact (call_eq_doc gen_hop_modes gen_slices C10_gen_slices_ok). Qed.
 Print Assumptions C10_library_call_eq_doc.
 
@@ -30,8 +32,8 @@ Print Assumptions C10_library_call_eq_doc.
 Theorem C10_route_independent :
   forall M S, slices_ok S = true ->
   forall e args, wt e (List.length args) = true -> wf_values e = true ->
-    exists l1 l2 r, call M S e true args = COk l1 r /\ call M S (FSlot e) true args = COk l2 r /\
-                    log_values l1 = log_values l2.
+    exists l1 l2 r1 r2, call M S e true args = COk l1 r1 /\ call M S (FSlot e) true args = COk l2 r2 /\
+                        result_val r1 = result_val r2 /\ log_values l1 = log_values l2.
 Proof. exact route_independent. Qed.
 Print Assumptions C10_route_independent.
 
